@@ -181,6 +181,10 @@ def run(ck):
     from rules.c09 import next_index
     next_index(ck, S, "C06-O5")
     name_pattern(ck, S, S.m["findRotatedFiles"], "C06-O6", date_is_class=True)
+    # ... and the names the writer produces are exactly the names that pattern finds (otherwise the count is never bounded)
+    ck.rule("C06-O7", "retention sees every rotated file: the name writer and findRotatedFiles() agree on fields, order, separators, the split of the active name, and the digits of the date (locale-independent)")
+    from rules.c09 import name_scheme
+    name_scheme(ck, S, "C06-O7")
 
 
 def pattern_templates(fn, ck=None):
